@@ -64,10 +64,14 @@ type Inv struct {
 	CPUs int
 	// Prepopulated counts destinations the generator created before the run (statistics)
 	Prepopulated int
+	// AbsInputs: the inputs are given by absolute paths ("@ROOT@/...")
+	AbsInputs bool
+	// Chroot: the run sees the scenario root as "/" (see verifos.Plan.Chroot)
+	Chroot bool
 	// Blockers are regular files the generator put where the run needs a directory: the
 	// destinations below them cannot be written
-	Blockers []string
-	StaleBaks    int
+	Blockers  []string
+	StaleBaks int
 }
 
 type Filter struct {
@@ -431,6 +435,15 @@ func (iv *Inv) Expect(t *Tree) *Expectation {
 		iv2.Inputs = nil
 	} else if iv2.Output == "-" {
 		iv2.Output = ""
+	}
+	// an input given by its absolute path names the same file or directory, and (README:
+	// the output mirrors the input from its last path element on) maps to the same
+	// destination as the relative spelling
+	iv2.Inputs = append([]string(nil), iv2.Inputs...)
+	for i, in := range iv2.Inputs {
+		if strings.HasPrefix(in, "@ROOT@/") && len(in) > len("@ROOT@/") {
+			iv2.Inputs[i] = strings.TrimPrefix(in, "@ROOT@/")
+		}
 	}
 	ex := iv2.expect(t)
 	if len(iv.Blockers) > 0 && !ex.Rejected {
